@@ -288,9 +288,53 @@ def one_line_per_instruction(ctx, py: PyRepo):
                facts={'word': word, 'opcodes': ops})
 
 
+def renderer_transparent(ctx, py: PyRepo):
+    """(a) is about the format strings; it carries over to the output only if the renderer hands EVERY argument, rendered, to the
+    format string in position: each returning path of Notation.print_instantiation returns
+    `self.format_str.format(*[<arg>.pretty(opts) for <arg> in applied.inst.values()])` - no filter, no conditional element."""
+    from ..core.pyeval import PyEval, show
+    fn = py.method('Notation', 'print_instantiation', 'pattern')
+    where = py.where('pattern', fn)
+    names = [a.arg for a in fn.args.args]
+    ctx.require(len(names) == 3, 'Notation.print_instantiation: signature changed')
+    SELF, APPLIED, OPTS = (('param', n) for n in names)
+    n = 0
+    for p in PyEval().paths(fn):
+        if p.end[0] != 'return':
+            continue
+        n += 1
+        v = p.end[1]
+        ok_call = v[0] == 'call' and v[1] == ('attr', ('attr', SELF, 'format_str'), 'format') and len(v[2]) == 1 and not v[3] \
+            and v[2][0][0] == 'star'
+        if not ok_call:
+            ctx.ob('renderer-transparent', f'return{n}', False,
+                   f'print_instantiation returns `{show(v)[:120]}`, not the notation\'s format string applied to the rendered arguments', where)
+            continue
+        args = v[2][0][1]
+        while args[0] == 'call' and args[1] in (('name', 'tuple'), ('name', 'list')) and len(args[2]) == 1:
+            args = args[2][0]
+        if args[0] != 'comp':
+            ctx.ob('renderer-transparent', f'return{n}', False,
+                   f'the arguments handed to the format string, `{show(args)[:120]}`, are not the list of all rendered arguments of the application',
+                   where)
+            continue
+        _c, _kind, elt, gens = args
+        one_gen = len(gens) == 1 and not gens[0][2]
+        var = gens[0][0] if gens else None
+        src_ok = one_gen and gens[0][1] == ('call', ('attr', ('attr', APPLIED, 'inst'), 'values'), (), ())
+        elt_ok = isinstance(var, str) and elt == ('call', ('attr', ('bound', var), 'pretty'), (OPTS,), ())
+        ctx.ob('renderer-transparent', f'return{n}', bool(src_ok and elt_ok),
+               f'print_instantiation hands `{show(args)[:160]}` to the format string: every argument of the application must be rendered '
+               f'with the caller\'s options and passed in position, unfiltered (a skipped or blanked argument disappears from the output '
+               f'even though the format names it)', where, facts={'arguments': show(args)[:200]})
+    ctx.analysed['print_instantiation returning paths'] = n
+    ctx.floor('renderer-transparent', 1)
+
+
 def run(ctx):
     py = PyRepo.get()
     notation_formats(ctx, py)
+    renderer_transparent(ctx, py)
     one_line_per_instruction(ctx, py)
     ctx.floor('format-covers-deps', 28)
     ctx.floor('one-line-per-step', 60)
@@ -298,7 +342,7 @@ def run(ctx):
         '(a) for every Notation(label, arity, definition, format) construction the set of argument indices the definition depends on '
         '(abstract evaluation through constructors, other notations and notation factories) is contained in the placeholder indices of '
         'the format string as the interpreter sees it (an f-string consumes `{0}`; `{{0}}` survives); notations built in a loop must '
-        'couple MetaVar(i) with a placeholder for i. (b) the pretty printer and the serializer override the same interpreter methods, '
+        'couple MetaVar(i) with a placeholder for i; Notation.print_instantiation passes every rendered argument, in position and unfiltered, to that format string. (b) the pretty printer and the serializer override the same interpreter methods, '
         'each pretty override is wrapped by the decorator that prints one terminated step, and the word printed is the opcode written. '
         'Injectivity of rendering in general is not decided.')
     ctx.assumptions = ['python ast; str.format placeholder syntax (string.Formatter)']
